@@ -181,7 +181,7 @@ func (g *pgen) intExpr(d int) string {
 	r := g.r
 	if g.errPct > 0 && r.Chance(g.errPct) {
 		g.tag("planted-error")
-		return r.Pick([]string{"nope", "i / z", "l[99]", "st.Missing", "np.A", "i % z", "s - 1", "li[-1]", "m[n]", "st[n]", "li[bu]", "l[bv]", "ls[bv - 1]", "i % 0.5", "j % f", "i / \"0\"", "i % t", "f % 0.25", "i / t"})
+		return r.Pick([]string{"nope", "i / z", "l[99]", "st.Missing", "np.A", "i % z", "s - 1", "li[-1]", "i * \"x\"", "j < \"x\"", "i - n", "f * st", "i % l", "m[n]", "st[n]", "li[bu]", "l[bv]", "ls[bv - 1]", "i % 0.5", "j % f", "i / \"0\"", "i % t", "f % 0.25", "i / t"})
 	}
 	if d <= 0 {
 		return r.Pick([]string{"i", "j", "z", "1", "2", "0", "i", "st.A", "len(l)", "li[0]", "pt.A", "bi", "bj", "i", "j"})
